@@ -130,6 +130,51 @@ def _run_own(chk, S: Session):
                     r1.fail(f"{ci.name}.estimate_error_norm [{e.what}]", e.detail, getattr(e.term, "origin", None) or SOLVERS, cfg)
     mle_rules(chk, S, r2)
     output_rules(chk, S, r1, r3)
+    dynamic_zero_scale_rules(chk, S)
+
+
+def dynamic_zero_scale_rules(chk, S):
+    """Dynamic mode re-discretises the prior with the local estimate |L^-1 z| / sqrt(n) >= 0.  The estimate is exactly zero whenever the residual is
+    (a start at an equilibrium, a constant component of a block-diagonal model, u' = 1 with a matching prior); for a state without covariance (exact
+    initial condition) the predicted covariance is then exactly zero, and so is the observed factor the update solves with."""
+    from .. import bounds as B
+
+    r4 = chk.rule("R-C04-4", "dynamic mode with a vanishing local estimate: the scale handed to the second discretisation is bounded away from zero, or the update's solve accepts a zero observed factor "
+                  "(returned covariances are then the unit-scale covariances times zero, not NaN)", floor=1)
+    floors, solves, site = [], [], None
+    for strategy in STRATEGIES:
+        it = S.interp()
+        solver = make_solver(it, "solver_dynamic", strategy)
+        env = SD.SEnv()
+        state = typed_state(it, env, strategy, "state", Fraction(0))
+        out = call(it, method(it, solver, "step"), state=state, dt=A("dt"), damp=A("damp"))
+        S.absorb(it)
+        sub = [t for v in (out.fields["u"], out.fields["solution_full"]) for t in T.subterms(v) if isinstance(t, T.Term)]
+        ests = {t.uid: t for t in sub if t.op == "mcall" and t.args[1] in ("residual_whitened_rms_tree", "residual_whitened_rms_flat")}
+        trans = {t.uid: t for t in sub if t.op == "mcall" and t.args[1] == "transition" and any(e in list(T.subterms(t.kwargs.get("output_scale"))) for e in ests.values())}
+        upd = {t.uid: t for t in sub if t.op == "mcall" and isinstance(t.args[1], str) and t.args[1].startswith("bayes_rule")}
+        if not ests or not trans or not upd:
+            r4.unknown("solver_dynamic.step vanishing local estimate", f"[{strategy}] local estimate / calibrated discretisation / update not found ({len(ests)}, {len(trans)}, {len(upd)}): anchor changed", SOLVERS)
+            return
+        benv = B.Env()
+        for e in ests.values():
+            benv.assume(e, B.Iv(0, B.INF, False, True))  # a norm divided by a positive number: >= 0, zero included
+        bb = B.Bounds(benv)
+        for t in trans.values():
+            x = t.kwargs.get("output_scale")
+            while isinstance(x, T.Term) and x.op == "func.stop_gradient":
+                x = x.args[0]
+            floors.append(bb.iv(x))
+            site = site or getattr(t, "origin", None)
+        for t in upd.values():
+            y = t.kwargs.get("solve_triu")
+            solves.append(getattr(y, "name", None) or repr(y))
+    positive = all(iv.pos for iv in floors)
+    tolerant = all("lstsq" in s_ or "pinv" in s_ for s_ in solves)
+    r4.require(positive or tolerant, "solver_dynamic.step vanishing local estimate", f"scale in {sorted({str(iv) for iv in floors})}, update solve {sorted(set(solves))} (all strategies)",
+               f"the local estimate (>= 0, exactly 0 for a vanishing residual) is handed to prior.transition unchanged (interval {sorted({str(iv) for iv in floors})}) and the update solves with {sorted(set(solves))}: "
+               "with an exact initial condition the predicted covariance and the observed factor are exactly zero and the triangular solve divides 0 by 0 -- means and covariances become NaN "
+               "instead of 'unit-scale covariances times zero'", site or SOLVERS)
 
 
 def mle_rules(chk, S, r2):
